@@ -2,6 +2,7 @@ package props
 
 import (
 	"fmt"
+	distrtypes "github.com/chain4energy/c4e-chain/x/cfedistributor/types"
 	"math/big"
 	"testing"
 
@@ -10,7 +11,8 @@ import (
 	"pgregory.net/rapid"
 )
 
-var distrDenoms = []string{Denom, "uatom"}
+// (the third denomination is a voucher as the IBC transfer module mints them: fees can be paid in any denomination)
+var distrDenoms = []string{Denom, "uatom", "ibc/27394FB092D2ECCD56123C74F36E4C1F926001CEADA9CA97EA622B25F41E5EB2"}
 
 type distrInflow struct {
 	Block int    `json:"block"`
@@ -41,7 +43,7 @@ func genInflows(t *rapid.T, cfg DCfg, blocks int, maxDec int) []distrInflow {
 		for j := 0; j < n; j++ {
 			l := fmt.Sprintf("blk%d_inj%d", b, j)
 			a := targets[rapid.IntRange(0, len(targets)-1).Draw(t, l+"_tgt")]
-			d := distrDenoms[rapid.IntRange(0, 3).Draw(t, l+"_denom")/3] // 3:1 uc4e:uatom
+			d := distrDenoms[[]int{0, 0, 0, 0, 0, 0, 1, 1, 2}[rapid.IntRange(0, 8).Draw(t, l+"_denom")]] // 6:2:1
 			amt := genAmount(t, l+"_amt", maxDec, false)
 			out = append(out, distrInflow{Block: b, Acc: a, Denom: d, Amt: amt.String()})
 		}
@@ -89,6 +91,25 @@ func runDistrCase(t *rapid.T, cfg DCfg, inflows []distrInflow, blocks int, check
 			userPaymentsAccepted += map[bool]int{true: 1}[res.OK()]
 			check(r)
 		}
+		if dropShareAfter == b {
+			// governance re-plans the configuration between two blocks: one named share is removed (its
+			// account may still have a leftover booked), the books are looked at right after the update
+			for i := range cfg.Subs {
+				if n := len(cfg.Subs[i].Shares); n > 0 {
+					nc := DCfg{Subs: append([]DSub{}, cfg.Subs...)}
+					k := dropShareIdx % n
+					nc.Subs[i].Shares = append(append([]DShare{}, cfg.Subs[i].Shares[:k]...), cfg.Subs[i].Shares[k+1:]...)
+					res := RunMsg(r.W.App, r.Ctx, &distrtypes.MsgUpdateParams{Authority: GovAuthority(), SubDistributors: nc.Build().SubDistributors})
+					if res.OK() {
+						cfg = nc
+						r.Model.Cfg = nc
+						sharesDropped++
+					}
+					check(r)
+					break
+				}
+			}
+		}
 		for _, s := range r.K.GetAllStates(r.Ctx) {
 			_, fr := s.Remains.TruncateDecimal()
 			if !fr.IsZero() {
@@ -99,6 +120,13 @@ func runDistrCase(t *rapid.T, cfg DCfg, inflows []distrInflow, blocks int, check
 	return fractional, r
 }
 
+// dropShareAfter / dropShareIdx: C03 lets governance remove a named share after that block (-1: never).
+var dropShareAfter, dropShareIdx, sharesDropped = -1, 0, 0
+
+// occupiedModuleAddrs: addresses of module accounts at which the running case put a base account
+// (x/feegrant creates one for a grantee that has no account) before the module account was first used.
+var occupiedModuleAddrs = map[string]bool{}
+
 // lockedSourceUnlocked: the block time of the running case is past the end of the locked vesting
 // account's schedule (C14 moves the clock there), its coins can be swept from then on.
 var lockedSourceUnlocked bool
@@ -106,6 +134,9 @@ var lockedSourceUnlocked bool
 // naturalFaults: transfers that fail without any injection — a base destination that is a
 // blocked module address cannot receive; a vesting account whose balance is locked cannot be swept.
 func naturalFaults(kind string, a DAcc) bool {
+	if a.Type == tModule && occupiedModuleAddrs[ModuleAddr(a.Id).String()] {
+		return true // an account of another type sits at the module account's address: it can neither be paid nor swept
+	}
 	if a.Type != tBase {
 		return false
 	}
@@ -136,6 +167,11 @@ func TestC03(t *testing.T) {
 			}
 		}
 		defer func() { payments = nil }()
+		dropShareAfter, dropShareIdx, sharesDropped = -1, rapid.IntRange(0, 5).Draw(t, "dropShareIdx"), 0
+		if rapid.IntRange(0, 2).Draw(t, "dropShare") == 0 {
+			dropShareAfter = rapid.IntRange(0, blocks-2).Draw(t, "dropShareAfter")
+		}
+		defer func() { dropShareAfter = -1 }()
 		fractional, r := runDistrCase(t, cfg, inflows, blocks, func(r *DistrRun) { r.CheckBooks(t) })
 		if r == nil {
 			st.Case(false, nil, "main_alias_rejected_by_validation")
@@ -154,6 +190,9 @@ func TestC03(t *testing.T) {
 		}
 		if len(payments) > 0 {
 			cl["user_transfer_to_main_account_attempted"] = true
+		}
+		if sharesDropped > 0 {
+			cl["named_share_removed_by_governance"] = true
 		}
 		nt := (cl["multi_sub"] || cl["multi_source"]) && fractional
 		st.Case(nt, map[string]interface{}{"cfg": cfg, "blocks": blocks, "inflows": inflows}, classList(cl)...)
